@@ -19,7 +19,7 @@ GNext ==
   /\ init' = init
   /\ hist' = IF pc' = 0
              THEN Append(hist, [c |-> cmd', res |-> res', sys |-> sys', bak |-> bak', bdir |-> bdir', svc |-> svc',
-                                calls |-> calls', chk |-> chk'])
+                                calls |-> calls', wrote |-> wrote', chk |-> chk'])
              ELSE hist
 
 GSpec == GInit /\ [][GNext]_gvars
